@@ -151,4 +151,23 @@ def intOfCbor : Cbor → Option Int
   | .nint n => some (-1 - (n : Int))
   | _ => none
 
+/-! ### COSE_Sign1 / COSE_Mac0 as coset parses and emits them (src/cose.rs) -/
+
+/-- COSE_Sign1 as coset keeps it: protected header BYTES as received, unprotected header as a map,
+payload and signature byte strings. -/
+structure CoseSign1 where
+  protectedBytes : Bytes
+  unprotected : List (Cbor × Cbor)
+  payload : Option Bytes
+  signature : Bytes
+
+def CoseSign1.toCbor (c : CoseSign1) : Cbor :=
+  .array [.bytes c.protectedBytes, .map c.unprotected,
+          (match c.payload with | some p => .bytes p | none => cnull), .bytes c.signature]
+
+def CoseSign1.fromCbor : Cbor → Option CoseSign1
+  | .array [.bytes p, .map u, .bytes pl, .bytes s] => some ⟨p, u, some pl, s⟩
+  | .array [.bytes p, .map u, .simple 22, .bytes s] => some ⟨p, u, none, s⟩
+  | _ => none
+
 end IsoMdl.Wire
